@@ -1,7 +1,7 @@
 (* The timing calibration of VoronoiFPS' switching point (full_fraction=None):
      lower, top = 0, 1
      while top - lower > 0.01: ff = (top + lower)/2; if t_voronoi < t_simple: lower = ff else: top = ff
-     full_fraction = lower
+     full_fraction = lower if lower > 0 else top        (see calib_store below)
    Wall-clock comparisons are an arbitrary stream of booleans.  All values are dyadic and the
    invariant top = lower + 2^-k holds, so the state is (k, lo) meaning lower = lo / 2^k. *)
 From Verif Require Import ListX.
@@ -19,3 +19,15 @@ Fixpoint calib (fuel : nat) (outs : nat -> bool) (k : nat) (lo : Z) : nat * Z :=
 
 (* 7 halvings suffice: 2^7 = 128 >= 100 *)
 Definition calibrate (outs : nat -> bool) : nat * Z := calib 8 outs 0 0.
+
+(* what _init_greedy_search STORES in self.full_fraction (since /repo 0a955d1):
+     self.full_fraction = lower_fraction if lower_fraction > 0 else top_fraction
+   with top = lower + 2^-k, i.e. numerator lo + 1 over 2^k when lo = 0 *)
+Definition calib_store (r : nat * Z) : nat * Z :=
+  let '(k, lo) := r in (k, if 0 <? lo then lo else lo + 1).
+Definition calibrate_stored (outs : nat -> bool) : nat * Z := calib_store (calibrate outs).
+
+(* correspondence: the harness drives the wall clock, so the comparison outcomes are known *)
+Definition calib_case_ok (outs : list bool) (num den : Z) : bool :=
+  let '(k, v) := calibrate_stored (fun i => nth i outs false) in
+  (v * den =? num * 2 ^ Z.of_nat k) && (0 <? den).
